@@ -120,9 +120,47 @@ struct generator {
   std::coroutine_handle<promise_type> h;
 };
 
+// ---- generators whose promise takes the yielded value through an OVERLOADED / a TEMPLATED yield_value (cppcoro,
+// std::generator style): `&promise_type::yield_value` is ill-formed for them, `p.yield_value(v)` is not
+template <typename T, bool Templ>
+struct gen2 {
+  struct promise_type {
+    std::optional<T> value;
+    gen2 get_return_object() { return gen2{std::coroutine_handle<promise_type>::from_promise(*this)}; }
+    std::suspend_always initial_suspend() noexcept { return {}; }
+    std::suspend_always final_suspend() noexcept { return {}; }
+    template <bool B = Templ, typename = std::enable_if_t<!B>>
+    std::suspend_always yield_value(T const& v, int = 0) { value = v; return {}; }
+    template <bool B = Templ, typename = std::enable_if_t<!B>>
+    std::suspend_always yield_value(T&& v, long = 0) { value = std::move(v); return {}; }
+    template <typename From, bool B = Templ, typename = std::enable_if_t<B && std::is_convertible<From, T>::value>>
+    std::suspend_always yield_value(From&& v) { value = std::forward<From>(v); return {}; }
+    void return_void() {}
+    void unhandled_exception() { throw; }
+  };
+  struct sentinel {};
+  struct iterator {
+    using value_type = T;
+    using difference_type = std::ptrdiff_t;
+    std::coroutine_handle<promise_type> h;
+    iterator& operator++() { h.resume(); return *this; }
+    void operator++(int) { h.resume(); }
+    T const& operator*() const { return *h.promise().value; }
+    bool operator==(sentinel) const { return h.done(); }
+  };
+  iterator begin() { h.resume(); return iterator{h}; }
+  sentinel end() { return {}; }
+  explicit gen2(std::coroutine_handle<promise_type> h_) : h(h_) {}
+  gen2(gen2&& r) noexcept : h(std::exchange(r.h, {})) {}
+  ~gen2() { if (h) h.destroy(); }
+  std::coroutine_handle<promise_type> h;
+};
+
 using eager_int = task<int, false>;
 using lazy_int = task<int, true>;
 using eager_void = task<void, false>;
+using ovl_generator = gen2<int, false>;
+using tmpl_generator = gen2<int, true>;
 using lazy_void = task<void, true>;
 
 struct Mock {
@@ -132,6 +170,8 @@ struct Mock {
   MAKE_MOCK0(lv, lazy_void());
   MAKE_MOCK1(oi, op_task<int>(int));
   MAKE_MOCK1(gen, generator<int>(int));
+  MAKE_MOCK1(ogen, ovl_generator(int));
+  MAKE_MOCK1(tgen, tmpl_generator(int));
   MAKE_MOCK1(str, lazy_int(std::string));
 };
 
@@ -154,6 +194,8 @@ void drive() {
   REQUIRE_CALL(m, oi(1)).WITH(_1 > 0).IN_SEQUENCE(s).TIMES(2).CO_RETURN(_1);
   REQUIRE_CALL(m, gen(1)).CO_YIELD(1).CO_YIELD(2).CO_RETURN();
   REQUIRE_CALL(m, gen(2)).CO_RETURN();
+  REQUIRE_CALL(m, ogen(1)).CO_YIELD(1).CO_YIELD(_1).CO_RETURN();
+  REQUIRE_CALL(m, tgen(1)).CO_YIELD(1).CO_YIELD(_1).CO_RETURN();
   REQUIRE_CALL(m, str(trompeloeil::_)).CO_RETURN(static_cast<int>(_1.size()));
   FORBID_CALL(m, ei(9));
   ALLOW_CALL(m, li(9)).CO_RETURN(9);
@@ -163,6 +205,8 @@ void drive() {
   auto d = m.lv();
   auto e = m.oi(1);
   auto g = m.gen(1);
+  auto og = m.ogen(1);
+  auto tg = m.tgen(1);
   auto f = m.str(std::string("abc"));
   for (auto&& x : g) { (void)x; }
 }
